@@ -16,6 +16,11 @@ DT = "ceos_alos2.datatypes"
 ATT = "ceos_alos2.sar_leader.attitude"
 LMD = "ceos_alos2.sar_leader.metadata"
 
+YDMS_SPEC = """
+def _decode(self, obj, context, path):
+    return datetime.datetime(obj["year"], 1, 1) + datetime.timedelta(days=obj["day_of_year"] - 1, milliseconds=obj["milliseconds"])
+"""
+
 YDUS_SPEC = """
 def _decode(self, obj, context, path):
     reference_date = self.reference_date(context) if callable(self.reference_date) else self.reference_date
@@ -160,10 +165,17 @@ def m2(chk, repo):
     chk.require(ok, "C17-M2", f"{md.relpath}:apply_overrides", "overrides convert with np.array(data, dtype=<override>)", "apply_overrides no longer converts with the override dtype", key="apply_overrides")
     # unit literals on the attitude time path
     at = repo.module(ATT).func("transform_time")
-    units = {}
-    for n in at.own_nodes():
+    units = None
+    cands = list(at.own_nodes())
+    for nm in {x.id for x in at.own_nodes() if isinstance(x, ast.Name)}:
+        r = repo.resolve_name(at, nm)
+        if r.kind == "value" and len(r.exprs) == 1:
+            cands.append(r.exprs[0])  # a table hoisted to module level
+    for n in cands:
         if isinstance(n, ast.Dict) and any(const_str(k) == "day_of_year" for k in n.keys):
             units = {const_str(k): const_str(v) for k, v in zip(n.keys, n.values)}
+    if units is None:
+        raise AnalysisError(f"{at.module.relpath}:transform_time: no unit table for day_of_year / millisecond_of_day found; units of the attitude time components not decided")
     chk.require(units.get("millisecond_of_day") == "ms" and units.get("day_of_year") == "D", "C17-M2", f"{at.module.relpath}:transform_time",
                 f"attitude time components use units {units}", f"attitude time components use units {units}: millisecond_of_day must be 'ms' and day_of_year 'D'", key="attitude:units")
     final = [c for c in calls_in(at) if isinstance(c.func, ast.Attribute) and c.func.attr == "astype"]
@@ -220,10 +232,16 @@ def m3(chk, repo):
     # DatetimeYdms normal form: 1 January of the year + (day-1) days + milliseconds
     cls = dt.classes.get("DatetimeYdms")
     dec = [s for s in cls.body if isinstance(s, ast.FunctionDef) and s.name == "_decode"][0]
-    txt = " ".join(norm(s) for s in dec.body)
-    ok = "datetime.datetime(obj['year'], 1, 1)" in txt and "milliseconds=obj['milliseconds']" in txt
-    chk.require(ok, "C17-M4", f"{dt.relpath}:DatetimeYdms._decode", "base = 1 January of obj['year']; milliseconds from obj['milliseconds']",
-                f"DatetimeYdms no longer builds 1 January of the year plus the millisecond field: {txt[:160]}", key="ydms:decode")
+    try:
+        _, got = summarize(dec)
+        _, want = summarize_source(YDMS_SPEC)
+    except Undecidable as e:
+        raise AnalysisError(f"DatetimeYdms._decode outside the fragment: {e}")
+    v = compare_paths(got, want)
+    if v == "incomparable":
+        raise AnalysisError(f"DatetimeYdms._decode has a different shape than its specification: {show_paths(got)[:200]}")
+    chk.require(v == "equal", "C17-M4", f"{dt.relpath}:DatetimeYdms._decode", "1 January of obj['year'] + (day_of_year - 1) days + obj['milliseconds'] ms",
+                f"DatetimeYdms no longer builds 1 January of the year plus (day_of_year - 1) days plus the millisecond field: {show_paths(got)[:200]}", key="ydms:decode")
 
 
 def strptime_width(fmt):
